@@ -66,6 +66,7 @@ def parseOp (a : List String) : Option Op :=
   | ["dto", k, m] => do pure (.dto (← k.toNat?) (← m.toNat?))
   | ["dl", j] => do pure (.dl (← j.toNat?))
   | ["dlto", j, m] => do pure (.dlto (← j.toNat?) (← m.toNat?))
+  | ["dlm", j, r, c] => do pure (.dlm (← j.toNat?) (← r.toNat?) (← c.toNat?))
   | ["send", n, x, p, l] => do pure (.send (← n.toNat?) (← x.toNat?) (← p.toNat?) (← l.toNat?))
   | ["idx", n, v] => do pure (.idx (← n.toNat?) (← v.toNat?))
   | ["del", n, li] => do pure (.del (← n.toNat?) (← li.toNat?))
@@ -101,13 +102,24 @@ def inner (s : String) : List String :=
 
 def step (s : St) (args : List String) (impl : String) : St × Out :=
   match args with
-  | "reset" :: r :: iv :: specs =>
+  | "reset" :: r :: iv :: toks =>
+    let specs := toks.filter (fun t => !t.startsWith "rt")
+    -- rt<node>=<gateway>:<weight>,…
+    let routes : List (Nat × List (Nat × Int)) := (toks.filter (·.startsWith "rt")).filterMap (fun t =>
+      match (t.drop 2).toString.splitOn "=" with
+      | [n, gws] => do
+        let n ← n.toNat?
+        let gs := (gws.splitOn ",").filterMap (fun g => match g.splitOn ":" with
+          | [a, wgt] => do pure (← a.toNat?, ← wgt.toInt?)
+          | _ => none)
+        pure (n, gs)
+      | _ => none)
     match r.toInt?, iv.toNat? with
     | some r, some iv =>
       if iv == 0 || specs.isEmpty then (s, badOp) else
       let cfgs := (List.range specs.length).zip specs |>.map (fun (i, sp) => parseSpec i r iv sp)
       if cfgs.any Option.isNone then (s, badOp) else
-      let cfgs := cfgs.filterMap id
+      let cfgs := (cfgs.filterMap id).map (fun c => { c with routes := (alookup c.node routes).getD [] })
       ({ w := { nodes := cfgs.map Node.init },
          retry := cfgs.map (fun c => { retries := c.retries, interval := c.interval }) },
        { model := "ok", verdict := expect "reset" impl "ok", tag := "triv:reset" })
@@ -151,7 +163,7 @@ def step (s : St) (args : List String) (impl : String) : St × Out :=
           let ctx : HsManager.Ctx := {
             myAddrs := nd.cfg.myAddrs,
             certLists := pre.nodes.flatMap (fun x => [certAddrsOf x.cfg 1, certAddrsOf x.cfg 2]),
-            preH := sect "H[" preDump, preI := sect "I[" preDump, preR := sect "R[" preDump,
+            preH := sect "H[" preDump, preI := sect "I[" preDump, preR := sect "R[" preDump, preP := inner (sect "P[" preDump),
             implT := sect "T[" secs, implP := inner (sect "P[" secs), implH := sect "H[" secs,
             implI := sect "I[" secs, implR := sect "R[" secs }
           let kind := HsManager.classify pre op
@@ -161,6 +173,7 @@ def step (s : St) (args : List String) (impl : String) : St × Out :=
             ((nd.p.wheel.slots.flatten.filter (·.1 == a)).length > 1) || ((nd'.p.wheel.slots.flatten.filter (·.1 == a)).length > 1) ||
             s.tainted.contains (n, a))
           let v32 := HsManager.c32 ctx kind nd.cfg (match op with | .tick _ => some r1view | .trig .. => some r1view | _ => none) tainted
+            (match op with | .send .. => true | _ => false)
           let swapAllowed : Option Bool := match pre.resolve op with
             | .swap _ li => (alookup li nd.main.indexes).map (fun hi => decide (hi.vpnAddrs.headD 0 ≥ nd.cfg.myAddrs.headD 0))
             | _ => none
